@@ -45,6 +45,22 @@ def _names(node):
 NARROWING = {"difference_update", "intersection_update", "discard", "remove", "clear", "pop", "symmetric_difference_update"}
 
 
+def check_chk_root_sets(ctx, fn, where):
+    """K5/K6: the four root-key sets computed for the new inventories (id_to_entry and parent_id_basename_to_file_id,
+    interesting and uninteresting) are each handed to an iter_interesting_nodes walk, and always as a matching pair — a
+    map whose roots are never walked has its chk pages unchecked."""
+    PAIRS = {"interesting_root_keys": "uninteresting_root_keys", "interesting_pid_root_keys": "uninteresting_pid_root_keys"}
+    read = {n.attr for n in ast.walk(fn) if isinstance(n, ast.Attribute) and isinstance(n.ctx, ast.Load) and (n.attr in PAIRS or n.attr in PAIRS.values())}
+    missing = sorted((set(PAIRS) | set(PAIRS.values())) - read)
+    ctx.check("R1-chk-roots-walked", where, not missing, "all four chk root-key sets of the new inventories are used", construct=str(missing), message=f"the root keys {missing} are never handed to a chk walk: the pages of that map are not checked for presence, a stacked repository can be left without them")
+    walks = [c for c in calls_in(fn) if call_attr(c) == "iter_interesting_nodes"]
+    ctx.check("R1-chk-roots-walked", where, len(walks) >= 1, "the chk maps are walked with iter_interesting_nodes")
+    for c in walks:
+        a = [x.attr if isinstance(x, ast.Attribute) else None for x in c.args[1:3]]
+        if a[0] in PAIRS and a[1] is not None:
+            ctx.check("R1-chk-roots-walked", where, PAIRS[a[0]] == a[1], f"{a[0]} is walked against {PAIRS[a[0]]}", construct=norm(c)[:90], message=f"`{norm(c)[:90]}` walks {a[0]} against {a[1]}: interesting and uninteresting roots of different maps are mixed")
+
+
 def check_presence_sets(ctx, fn, where):
     """R1c (K5): every set S whose members are looked up for presence
     (`<index>.get_parent_map(S)` followed by `S.difference(present)`) and that
@@ -147,6 +163,7 @@ def run(ctx):
 
     if r is not None and r[0] == GC:
         check_presence_sets(ctx, r[2], f"{GC}:GCRepositoryPackCollection._check_new_inventories")
+        check_chk_root_sets(ctx, r[2], f"{GC}:GCRepositoryPackCollection._check_new_inventories")
         check_interesting_key_sets(ctx, r[2], f"{GC}:GCRepositoryPackCollection._check_new_inventories")
 
     # ---- R2 ------------------------------------------------------------------
